@@ -179,6 +179,7 @@ TResults ==
                    Ev.posterior.tags[i] = pc_[i][KernelOfKey(Hdr.postkey)])
   /\ Chk("tuning_times_are_the_end_times_of_the_adaptation_epochs", Ev.tuning_times = TuneTimes(1))
   /\ Chk("stored_results_unchanged_by_reading_and_summarising", Ev.reread_ok)
+  /\ Chk("results_object_obtained_earlier_shows_what_was_sampled_since", Ev.retained_ok)
   /\ Chk("keys_distinct_across_chains_and_calls",
          Cardinality(SeqToSet(Ev.allkeys)) = Len(Ev.allkeys))
   /\ Chk("no_call_key_is_derived_from_another_calls_key", Ev.keys_underived)
@@ -186,5 +187,7 @@ TResults ==
          LifecycleOK /\ EndWarmupAtMostOnce /\ StoredOK /\ QuantsOK /\ OrderRespected /\ TuneHistoryOK)
   /\ UNCHANGED <<mvars, evars, params, usedKeys>> /\ Step
 
-TNext == TSilent \/ TAppend \/ TSampleNext \/ TSampleAll \/ TInitState \/ TCall \/ TResults
+\* get_results() / reading the accessors in the middle of a run changes nothing
+TRead == IsEvent("read") /\ ~Silent /\ UNCHANGED <<mvars, evars, params, usedKeys>> /\ Step
+TNext == TRead \/ TSilent \/ TAppend \/ TSampleNext \/ TSampleAll \/ TInitState \/ TCall \/ TResults
 =============================================================================
